@@ -1,6 +1,7 @@
 import SlipVerif.Model.JsonLisp
 import SlipVerif.Lemmas.JsonPath
 import SlipVerif.Lemmas.JsonLisp
+import SlipVerif.Lemmas.JsonText
 /-
   C18 — property theorems about the JSON model (Model/Json.lean, JsonText.lean, JsonLisp.lean),
   the model the correspondence harness (harness/cmd/vh/c18*.go) runs against the implementation.
@@ -209,5 +210,39 @@ theorem simplify_roundtrip_fails_outside_guard :
     (never a negative one). -/
 theorem simpleObject_uint_value (bits v : Nat) (h : bits ≠ 8) : simpleObject (.uint bits v) = .int v := by
   simp [simpleObject, h]
+
+/-! ## JSON text: the model parser reads back what the model writer wrote -/
+
+/-- Writing a document (compact or with any white-space layout: the model's `:pretty` / `:depth`)
+    and parsing the text gives the document back: string escapes, nesting, empty containers,
+    integers of any size; floats are opaque number tokens with a point or exponent; object keys
+    are unique (`TextOk`). -/
+theorem write_parse_roundtrip (lay : Layout) (hl : lay.WsOnly) (j : J) (hj : TextOk j = true) :
+    parse (write lay j) = .ok j :=
+  parse_write lay hl j hj
+
+/-- The same for every amount of fuel that covers the document (so the result never depends on
+    how much more fuel the driver passes), with white space in front and any text behind that
+    does not continue a number. -/
+theorem write_parse_roundtrip_any_fuel (lay : Layout) (hl : lay.WsOnly) (j : J) (hj : TextOk j = true)
+    (d fuel : Nat) (ws rest : List Char) (hws : ws.all isWs = true) (hf : need j ≤ fuel) (hr : RestOk rest) :
+    parseValue fuel (ws ++ (writeV lay d j ++ rest)) = .ok (j, rest) :=
+  parseValue_writeV lay hl j hj d fuel ws rest hws hf hr
+
+/-- the two layouts the driver uses satisfy the hypothesis -/
+theorem layouts_wsOnly (n : Nat) : Layout.compact.WsOnly ∧ (Layout.indent n).WsOnly :=
+  ⟨Layout.compact_wsOnly, Layout.indent_wsOnly n⟩
+
+example : TextOk (obj [("a", arr [.int (-12345678901234567890123), .flo "-1.5e+300", .str "x\n\"\\é\u0001", arr [], obj []]),
+    ("b", .null)]) = true := by decide
+
+/-- Integers are written in decimal and read back exactly, whatever their size. -/
+theorem int_text_roundtrip (i : Int) : classify (intChars i) = .ok (.int i) := classify_intChars i
+
+/-- String bodies are read back exactly, whatever characters they hold. -/
+theorem string_text_roundtrip (s : String) (rest : List Char) :
+    readStr ((writeStr s).drop 1 ++ rest) = .ok (s.toList, rest) := by
+  simp only [writeStr, List.drop_succ_cons, List.drop_zero, List.append_assoc, List.cons_append, List.nil_append]
+  exact readStr_esc s.toList rest
 
 end SlipVerif.Json
